@@ -32,3 +32,4 @@ pub mod kit;
 pub mod stubs;
 
 pub mod fam_fut;
+pub mod fam_stream;
